@@ -44,7 +44,8 @@ def run(chk: Check):
     su.run_property(chk, 'C10', PROPS, gen, nontrivial, scenarios=scen,
                     extra=lambda c, cfg: (su.declared_associated_scenarios(c),
                                           su.rewrite_input_then_retry_scenarios(c, c.rng, c.n(6, 40)),
-                                          su.rejected_then_other_schema_scenarios(c)))
+                                          su.rejected_then_other_schema_scenarios(c),
+                                          su.retry_after_interrupted_merge_scenarios(c, c.rng, c.n(4, 24))))
 
 
 def replay(chk: Check, rp):
